@@ -18,7 +18,7 @@ def run(ctx):
         bfs = [("nb3", nb, 3), ("r0-2", r0, 2), ("all2", allr, 2)]
         walks = [dict(label="walk", tags="", walks=40, plies=80, shards=28)]
     fam = [("ep-slice", "Families_pos.cfg", {"VERIF_FAMILY": "ep", "VERIF_VARIANT": "rbq"[ctx.seed % 3], "VERIF_FILE": (ctx.seed * 3) % 8,
-                                              "VERIF_SLICE": ctx.seed % 8, "VERIF_SLICES": 8})] if ctx.tier == "quick" else \
+                                              "VERIF_SLICE": ctx.seed % 8, "VERIF_SLICES": 8, "VERIF_HM": 0, "VERIF_EXTRA": "", "VERIF_EDGE": 0, "VERIF_NEAR": 0})] if ctx.tier == "quick" else \
           [("ep-%s-%d" % (v, f), "Families_pos.cfg", {"VERIF_FAMILY": "ep", "VERIF_VARIANT": v, "VERIF_FILE": f, "VERIF_SLICE": 0, "VERIF_SLICES": 1})
            for v in "rbq" for f in range(8)]
     board_pipeline(ctx, bfs, walks, fam)
